@@ -32,6 +32,7 @@ def matrix(tier, rnd):
         for point in P.POINTS:
             for pending in pend:
                 add(P.lifecycle_scenario(0, cause, point, pending, after_api=False))
+    add(P.lifecycle_scenario(0, "cancel", "before-run", "none"))
     # two causes: a message-borne cause parked behind a busy loop, then an external one
     for first in ("quit", "interrupt", "cmdpanic"):
         for second in ("kill", "cancel"):
